@@ -170,6 +170,11 @@ func (p *printer) node(n *Node, d int, nest int) {
 		default:
 			p.line(d, "for %s; %s < %d; %s {", init, v, n.N, post)
 		}
+		if (n.ID+n.N)%3 == 0 && !strings.HasPrefix(v, "ws[") {
+			// the body declares its own copy of the loop variable: the post statement still advances the loop's one
+			p.line(d+1, "%s := %s", v, v)
+			p.line(d+1, "%s += 0", v)
+		}
 		p.counters = append(p.counters, v)
 		p.block(n.Body, d+1, nest+1)
 		p.counters = p.counters[:len(p.counters)-1]
@@ -203,7 +208,27 @@ func (p *printer) node(n *Node, d int, nest int) {
 		p.line(d, "fmt.Println(\"after\", %d, %s)", n.ID, v)
 	case "range":
 		k, v := fmt.Sprintf("k%d", n.ID), fmt.Sprintf("v%d", n.ID)
-		if n.Over%5 == 4 {
+		if n.Over%6 == 5 {
+			// the same range statement runs twice in one frame: first over a slice with elements, left by break after the
+			// first one, then over the same variable set to nil (no pass at all)
+			rq, ps := fmt.Sprintf("rq%d", n.ID), fmt.Sprintf("ps%d", n.ID)
+			p.line(d, "%s := []int{10, 20, 30}", rq)
+			p.line(d, "for %s := 0; %s < 2; %s++ {", ps, ps, ps)
+			p.line(d+1, "for %s, %s := range %s {", k, v, rq)
+			p.line(d+2, "fmt.Println(\"r\", %d, %s, %s, %s)", n.ID, ps, k, v)
+			p.counters = append(p.counters, ps)
+			p.block(n.Body, d+2, nest+2)
+			p.counters = p.counters[:len(p.counters)-1]
+			p.line(d+2, "if %s >= 0 {", k)
+			p.line(d+3, "break")
+			p.line(d+2, "}")
+			p.line(d+1, "}")
+			p.line(d+1, "%s = nil", rq)
+			p.line(d, "}")
+			p.line(d, "fmt.Println(\"after\", %d, len(%s))", n.ID, rq)
+			break
+		}
+		if n.Over%6 == 4 {
 			// a loop that empties the map it ranges over: every entry is deleted when it is visited, so each is visited
 			// exactly once whatever the order, and the pass counter is the only thing the body sees of the iteration
 			md, cnt := fmt.Sprintf("md%d", n.ID), fmt.Sprintf("dn%d", n.ID)
@@ -224,7 +249,7 @@ func (p *printer) node(n *Node, d int, nest int) {
 			break
 		}
 		var over string
-		switch n.Over % 5 {
+		switch n.Over % 6 {
 		case 3: // the function's slice variable itself: nested loops of this kind iterate over the same slice value
 			over = "rs"
 		case 0:
@@ -415,7 +440,7 @@ func (g *genState) stmt(depth int, inLoop, inSwitch bool) *Node {
 		n.Body = g.stmts(depth+1, true, false, 4)
 		return n
 	case 5:
-		n := &Node{K: "range", ID: g.nextID(), N: rx.Range(rt, "bound", 1, 3), Over: rx.Uniform(rt, 5, "over")}
+		n := &Node{K: "range", ID: g.nextID(), N: rx.Range(rt, "bound", 1, 3), Over: rx.Uniform(rt, 6, "over")}
 		n.Body = g.stmts(depth+1, true, false, 4)
 		return n
 	case 6:
